@@ -2,6 +2,7 @@ package main
 
 import (
 	"fmt"
+	"math"
 	"os"
 	"path/filepath"
 	"strconv"
@@ -376,6 +377,12 @@ func runC18Case(tier string, seed uint64, idx int, keepDir string) *CaseResult {
 	for _, o := range ovs {
 		if !o.Valid {
 			reject = true
+			// a quarter of the invalid values are "not a number" / infinite (what a calibration script prints for a failed
+			// computation): outside every valid range
+			if rn := NewRng(mix(mix(seed, uint64(idx)), hashStr(o.Key))); rn.Bool(0.25) {
+				o.Value = []float64{math.NaN(), math.Inf(1), math.Inf(-1)}[rn.Intn(3)]
+				res.Cov["rejection_pairs_with_nan_or_infinite_value"]++
+			}
 		}
 	}
 	root := keepDir
